@@ -94,6 +94,14 @@ def run_init(repo, shape, label):
             c.finite_of = a
             tests.append(c)
             return PV(c, True, False)
+        if name in ("numpy.isnan", "numpy.isinf") and args:
+            a = args[0]
+            r = Obj("nonfinite-probe"); r.attrs["of"] = a; r.attrs["what"] = name.split(".")[-1]
+            return r
+        if name in ("numpy.any", "builtins.bool", "builtins.any") and args and isinstance(args[0], Obj) and args[0].cls == "nonfinite-probe":
+            c = Cond.get(("weakprobe", repr(id(args[0]))), f"{args[0].attrs['what']}-probe(record)")
+            c.weak_probe = args[0].attrs["what"]
+            return PV(c, True, False)
         if name == "numpy.nan_to_num":
             a = args[0]
             zero = all((to_x(kw.get(z)) is not None and to_x(kw.get(z)).iszero()) for z in ("nan", "posinf", "neginf"))
@@ -156,7 +164,7 @@ def check_record(ctx, rule_s="R2-sanitised-or-finite", rule_r="R3-channel-routin
                 ctx.unknown(rule_r, c, f"self.{attr} not recognised: {v!r}"[:200], where); continue
             for fin, leaf in leaves:
                 A = as_arr(leaf) if not is_opaque(leaf) else None
-                tagc = f"{c}[{'finite record' if fin else 'record with NaN/Inf' if fin is False else 'any record'}]"
+                tagc = f"{c}[{'record passing/failing a weak non-finite probe' if fin == 'weak' else 'finite record' if fin else 'record with NaN/Inf' if fin is False else 'any record'}]"
                 if A is None or A.ndim != 1:
                     ctx.ob(rule_r, tagc, UNKNOWN if (is_opaque(leaf) or A is None) else VIOLATED, f"self.{attr} is {leaf!r}"[:200], where); continue
                 jv, cnt = A.axes[0]
@@ -176,7 +184,11 @@ def check_record(ctx, rule_s="R2-sanitised-or-finite", rule_r="R3-channel-routin
                     continue
                 # sanitising
                 if rule_s is None: continue
-                if fin is False:
+                if fin == "weak":
+                    if b.eq(san): ctx.holds(rule_s, tagc, "sanitised on this branch", where)
+                    else: ctx.violated(rule_s, tagc, "the record is used unsanitised on a branch guarded only by an aggregate probe (isnan/isinf of a sum or similar): a record whose "
+                                       "non-finite samples are all +inf (or all -inf) passes isnan(sum), so inf reaches the kernels", where)
+                elif fin is False:
                     if b.eq(san): ctx.holds(rule_s, tagc, "non-finite samples replaced by zeros before the channel view is taken", where)
                     else:
                         part = mk_fn("san_partial", [raw])
@@ -202,10 +214,17 @@ def _leaves_fin(v, choose):
         if isinstance(x, PV):
             if x.cond.key[0] == "allfinite":
                 walk(x.hi, True); walk(x.lo, False); return
+            if x.cond.key[0] == "weakprobe":
+                # isnan(...)/isinf(...) of an aggregate: passing it does not establish that every sample is finite
+                walk(x.hi, "weak"); walk(x.lo, "weak"); return
             t = choose(x.cond)
             if t is None:
                 out.append((fin, Opaque(f"undecided condition {x.cond}"))); return
             walk(x.hi if t else x.lo, fin); return
+        if isinstance(x, Arr) and isinstance(x.body, PV):
+            # the case split sits inside the element expression: hoist it (same conditions, elementwise)
+            c = x.body.cond
+            walk(PV(c, Arr(x.axes, x.body.hi), Arr(x.axes, x.body.lo)), fin); return
         out.append((fin, x))
     walk(v, None)
     return out
